@@ -214,7 +214,61 @@ func (c *c10Case) Run(ctx *core.Ctx) {
 		c.runFiles(ctx)
 	case "markdown":
 		c.runMarkdown(ctx)
+	case "less":
+		c.runLess(ctx)
 	}
+}
+
+// runLess: the CSS compiled from a LESS block is a function of the block and of the files it
+// imports from the rendering engine's own file system - whatever other engines of the process
+// (with the same page over other files) compiled before, and after an imported file changed.
+func (c *c10Case) runLess(ctx *core.Ctx) {
+	ctx.NonTrivial()
+	page := "<style type=\"text/css+less\">\n@import \"theme.less\";\n.box {\n  color: @brand;\n}\n</style><p>x</p>"
+	inline := "<style type=\"text/css+less\">\n@brand: teal;\n.box {\n  color: @brand;\n}\n</style><p>x</p>"
+	mk := func(colour string) fstest.MapFS {
+		return fstest.MapFS{"page.vuego": {Data: []byte(page), ModTime: baseTime}, "inline.vuego": {Data: []byte(inline), ModTime: baseTime}, "theme.less": {Data: []byte("@brand: " + colour + ";\n"), ModTime: baseTime}}
+	}
+	fss := map[string]fstest.MapFS{"A": mk("red"), "B": mk("blue")}
+	engines := map[string]vuego.Template{}
+	colour := map[string]string{"A": "red", "B": "blue"}
+	later := baseTime
+	for i, ev := range c.Seq {
+		which, what, _ := strings.Cut(ev, ":")
+		switch what {
+		case "edit": // the imported file is replaced
+			colour[which] = map[string]string{"red": "green", "blue": "purple", "green": "red", "purple": "blue"}[colour[which]]
+			later = later.Add(time.Hour)
+			fss[which]["theme.less"] = &fstest.MapFile{Data: []byte("@brand: " + colour[which] + ";\n"), ModTime: later}
+			continue
+		case "fresh":
+			delete(engines, which)
+			continue
+		}
+		if engines[which] == nil {
+			engines[which] = vuego.NewFS(fss[which], vuego.WithLessProcessor())
+		}
+		file, want := "page.vuego", colour[which]
+		if what == "inline" {
+			file, want = "inline.vuego", "teal"
+		}
+		var buf bytes.Buffer
+		ctx.Eval(1)
+		ctx.Transition(1)
+		err := engines[which].Load(file).Render(bg, &buf)
+		out := buf.String()
+		ok := err == nil && strings.Contains(out, "color: "+want)
+		for _, other := range []string{"red", "blue", "green", "purple", "teal"} {
+			if other != want && strings.Contains(out, "color: "+other) {
+				ok = false
+			}
+		}
+		if !ok {
+			ctx.Violation("depends-on-earlier-renders", "less/"+what, which, fmt.Sprintf("history %v: engine %s (theme.less says %s) renders %s as %q (err %v) at step %d", c.Seq, which, colour[which], file, clip(out, 300), err, i))
+			return
+		}
+	}
+	ctx.Outcome(strings.Join(c.Seq, ">"))
 }
 
 // c10Docs: Markdown documents whose constructs make a parser keep something: link reference
@@ -555,6 +609,20 @@ func init() {
 					emit(&c10Case{Part: "files", Prog: p.Name, Seq: seq})
 				}
 			}
+			lessEv := []string{"A:render", "B:render", "A:edit", "B:edit", "A:inline", "B:inline", "A:fresh"}
+			tokenStrings(lessEv, 4, func(tok []int) {
+				var seq []string
+				renders := 0
+				for _, i := range tok {
+					seq = append(seq, lessEv[i])
+					if strings.HasSuffix(lessEv[i], "render") || strings.HasSuffix(lessEv[i], "inline") {
+						renders++
+					}
+				}
+				if renders >= 2 && !strings.HasSuffix(seq[len(seq)-1], "edit") && !strings.HasSuffix(seq[len(seq)-1], "fresh") {
+					emit(&c10Case{Part: "less", Seq: seq})
+				}
+			})
 			for _, entry := range []string{"bytes", "load"} {
 				var rec func(seq []string)
 				rec = func(seq []string) {
